@@ -11,6 +11,7 @@ import MstVerif.Model.Traverse
 import MstVerif.Model.Diff
 import MstVerif.Model.Sync
 import MstVerif.Model.DiffDepth
+import MstVerif.Model.Api
 import MstVerif.Proofs.Defs
 import Std.Data.HashMap
 
@@ -109,6 +110,30 @@ structure St where
   kds : Std.HashMap Bytes Bytes := {}
   /-- ranges computed by `rplan recv send`, to be fetched later by `rapply` (in-flight pulls) -/
   plans : Std.HashMap (Nat × Nat) (List (DR Bytes)) := {}
+  /-- the user hasher a tree stores and the `impl Hash` of its key type (`Model/Api.lean`) -/
+  cfgs : Std.HashMap Nat (HasherM × HKind) := {}
+
+/-- `kind=table|sipdef|sipseed:<hex>` -/
+def parseHasher (s : String) : Option HasherM :=
+  if s = "table" then some .custom
+  else if s = "sipdef" then some .sipDefault
+  else match s.splitOn ":" with
+    | ["sipseed", h] => (unhexList h.toList).map HasherM.sipNew
+    | _ => none
+
+def parseKeyKind (s : String) : Option HKind :=
+  if s = "bytes" then some .bytes else if s = "string" then some .str else if s = "fixed8" then some .array else none
+
+/-- The configured tree the named constructor path yields (`Model/Api.lean`). -/
+def construct (ctor : String) (h : HasherM) (base : Nat) : Option (MST Bytes Bytes) :=
+  if ctor = "builder" then some ((TreeBuilder.default.withHasher h).withLevelBase base).build
+  else if ctor = "builder2" then some ((TreeBuilder.default.withLevelBase base).withHasher h).build
+  else if ctor = "default" then some MST.default
+  else if ctor = "deprecated" then some (MST.newWithHasher h)
+  else none
+
+def optOf (rest : List String) (pre : String) : Option String :=
+  (rest.find? (·.startsWith pre)).map (fun s => (s.drop pre.length).toString)
 
 def serOf (t : T) : Except String (Option (List R)) := t.serialise
 
@@ -188,21 +213,46 @@ def settle (st : St) (m : Merge) : St × String :=
 
 def step (st : St) (line : String) : St × String :=
   match line.trimAscii.toString.splitOn " " with
-  | "new" :: t :: base :: _ =>
-    match t.toNat?, base.toNat? with
-    | some t, some base => ({ st with trees := st.trees.insert t (.tree Tree.empty base) }, "ok")
-    | _, _ => (st, "bad-op")
+  | "new" :: t :: base :: rest =>
+    -- the tree is obtained through the MODEL of the named constructor path: what it stores as
+    -- hasher and level base is what `Model/Api.lean` says that path stores
+    match t.toNat?, base.toNat?, parseHasher ((optOf rest "kind=").getD "table"),
+          parseKeyKind ((optOf rest "key=").getD "bytes") with
+    | some t, some base, some h, some kk =>
+      match construct ((optOf rest "ctor=").getD "builder") h base with
+      | some m => ({ st with trees := st.trees.insert t (.tree m.tree m.levelBase),
+                             cfgs := st.cfgs.insert t (m.hasher, kk) }, "ok")
+      | none => (st, "bad-op")
+    | _, _, _, _ => (st, "bad-op")
   | ["clone", dst, src] =>
     match dst.toNat?, src.toNat? with
     | some dst, some src =>
+      let cfgs := match st.cfgs[src]? with | some c => st.cfgs.insert dst c | none => st.cfgs.erase dst
       match st.trees[src]? with
-      | some (.tree tr base) => ({ st with trees := st.trees.insert dst (.tree tr base) }, "ok")
-      | some .poisoned => ({ st with trees := st.trees.insert dst .poisoned }, "poisoned")
+      | some (.tree tr base) => ({ st with trees := st.trees.insert dst (.tree tr base), cfgs := cfgs }, "ok")
+      | some .poisoned => ({ st with trees := st.trees.insert dst .poisoned, cfgs := cfgs }, "poisoned")
       | none => (st, "bad-op")
     | _, _ => (st, "bad-op")
-  | "ups" :: t :: k :: kd :: vd :: _ =>
+  | ["clonefrom", dst, src] =>
+    -- `Clone::clone_from(&mut dst, &src)` on two existing trees of one type: `MST.cloneFrom`
+    match dst.toNat?, src.toNat? with
+    | some dst, some src =>
+      let cfgs := match st.cfgs[src]? with | some c => st.cfgs.insert dst c | none => st.cfgs.erase dst
+      match st.trees[dst]?, st.trees[src]? with
+      | some _, some (.tree tr base) => ({ st with trees := st.trees.insert dst (.tree tr base), cfgs := cfgs }, "ok")
+      | some _, some .poisoned => ({ st with trees := st.trees.insert dst .poisoned, cfgs := cfgs }, "poisoned")
+      | _, _ => (st, "bad-op")
+    | _, _ => (st, "bad-op")
+  | "ups" :: t :: k :: kd :: vd :: rest =>
     match t.toNat?, parseBytes k, parseBytes kd, parseBytes vd with
     | some t, some k, some kd, some vd =>
+      -- a tree storing a `SipHasher` computes both digests ITSELF from the key and the raw value
+      -- (`MST.upsert`); the digests on the line are then ignored
+      let (kd, vd) :=
+        match st.cfgs[t]?, (optOf rest "val=").bind parseBytes with
+        | some (.sip k0 k1, kk), some raw =>
+          ((HasherM.sip k0 k1).hash kk id k, (HasherM.sip k0 k1).hash .bytes id raw)
+        | _, _ => (kd, vd)
       match st.trees[t]? with
       | some (.tree tr base) =>
         match tr.upsert k (level kd base) vd with
@@ -211,6 +261,15 @@ def step (st : St) (line : String) : St × String :=
       | some .poisoned => (st, "poisoned")
       | none => (st, "bad-op")
     | _, _, _, _ => (st, "bad-op")
+  | ["hdig", t, k, w] =>
+    -- `hasher.hash(&key)` / `hasher.hash(&value)` of the hasher the tree stores
+    match t.toNat?, parseBytes k, parseBytes w with
+    | some t, some k, some w =>
+      match st.cfgs[t]? with
+      | some (.sip k0 k1, kk) =>
+        (st, hexOf ((HasherM.sip k0 k1).hash kk id k) ++ " " ++ hexOf ((HasherM.sip k0 k1).hash .bytes id w))
+      | _ => (st, "none")
+    | _, _, _ => (st, "bad-op")
   | ["hash", t] =>
     match t.toNat? with
     | some t =>
